@@ -786,6 +786,7 @@ func suiteSrt(R *runner, r *rng) {
 			o.Impl, o.Oracle, o.Sig = "PANIC", "parseTextSrt panicked: "+p, "srt-text-panic"
 		} else {
 			e := &enc{}
+			e.n(0)
 			s := &astisub.Subtitles{Items: []*astisub.Item{{Lines: []astisub.Line{l}}}}
 			encSrtItems(e, s)
 			e.bool(b1).bool(i1).bool(u1)
